@@ -41,7 +41,7 @@ func strFromIndex(idx int64, alphabet []string, n int) string {
 }
 
 func runC11(e *Env) {
-	e.Rule = "(a) totality + (b) reflexivity: ALL strings up to length 5 (quick) / 7 (thorough) over {'/',' ','.','a','b','\\t'} as registered path, group prefix (top level and nested inside another group) and request path (GET and HEAD), both StrictLastSlash settings: GET/Group/Match/ServeHTTP never panic and a static route registered as P is found by a request for the very same P; (c) equivalence on the unambiguous sub-language ws* '/'* core '/'* ws*: sampled pairs (P,Q) incl. group prefixes: route(P) is reached by Q iff N(P)==N(Q), Route.Path()==N(P), strict mode distinguishes '/a' from '/a/'; (d) path source: request targets with %41/%2F/%20 escapes parsed like a server does, routes registered under the decoded and under the escaped spelling + a dynamic route: default router matches URL.Path, UseEncodedPath matches URL.EscapedPath() (in a third of the cases only the decoded spelling is registered: the escaped request then finds no static route). Non-trivial: string with white space or repeated/trailing slashes or an escape; distinct by string (pair). Non-ASCII white space and a literal '?' (a path character once the target is parsed) are part of the alphabet; a Controller registered under a prefix yields the same route path as a Group under that prefix (both strict settings); for strings outside the documented sub-language the two entry points must still agree (Match reaches the route iff ServeHTTP does, also for the stored path itself)."
+	e.Rule = "(a) totality + (b) reflexivity: ALL strings up to length 5 (quick) / 7 (thorough) over {'/',' ','.','a','b','\\t'} as registered path, group prefix (top level and nested inside another group) and request path (GET and HEAD), both StrictLastSlash settings: GET/Group/Match/ServeHTTP never panic and a static route registered as P is found by a request for the very same P; (c) equivalence on the unambiguous sub-language ws* '/'* core '/'* ws*: sampled pairs (P,Q) incl. group prefixes: route(P) is reached by Q iff N(P)==N(Q), Route.Path()==N(P), strict mode distinguishes '/a' from '/a/'; (d) path source: request targets with %41/%2F/%20 escapes parsed like a server does, routes registered under the decoded and under the escaped spelling + a dynamic route: default router matches URL.Path, UseEncodedPath matches URL.EscapedPath() (in a third of the cases only the decoded spelling is registered: the escaped request then finds no static route). Non-trivial: string with white space or repeated/trailing slashes or an escape; distinct by string (pair). Non-ASCII white space and a literal '?' (a path character once the target is parsed) are part of the alphabet; request paths that differ from the registered one only where it has its last dot; a Controller registered under a prefix yields the same route path as a Group under that prefix (both strict settings); for strings outside the documented sub-language the two entry points must still agree (Match reaches the route iff ServeHTTP does, also for the stored path itself)."
 	e.Assumptions = []string{
 		"strings where white space touches the stripped slashes (e.g. 'a /') are only checked for totality and reflexivity: the documented rule does not fix their normal form",
 		"only ASCII white space is generated",
@@ -178,7 +178,16 @@ func runC11(e *Env) {
 		if chance(r, 1, 2) {
 			// derive Q from P by a normalisation-preserving or a minimal breaking edit
 			Q = P
-			switch r.IntN(8) {
+			switch r.IntN(9) {
+			case 8:
+				// another character where the registered text has its last dot (a dot is a literal dot, not "any character")
+				if chance(r, 1, 2) {
+					P = strings.TrimRight(P, " \t\u00a0\u2028/") + "/" + pick(r, []string{"a.b.a", ".a.b", "a..b", "b.a.", "a.b/a.b"}) // several dots behind the first segment
+					Q = P
+				}
+				if i := strings.LastIndex(Q, "."); i >= 0 {
+					Q = Q[:i] + pick(r, []string{"a", "b", "ab"}) + Q[i+1:]
+				}
 			case 7:
 				Q = Q + pick(r, []string{"?", "?a=b", "?/"}) // a literal '?' (sent as %3F) is a path character like any other
 			case 0:
@@ -312,6 +321,17 @@ func runC11(e *Env) {
 			t.Count("equivalence.dynamic_sibling", 1)
 			if (got == dyn) != should || (should && ps["id"] != "7") {
 				t.Fail("dynamic-route-prefix-not-literal", "route %q and request %q: reached=%v (params %v), expected reached=%v with id=7 (the literal part %q is compared character by character)", wantPath+"/{id}", nq+"/7", got == dyn, ps, should, wantPath)
+				return
+			}
+			// ... and as the text behind a variable
+			rd2 := rux.New(c11Opts(strict, false)...)
+			var dyn2 *rux.Route
+			if _, panicked := catch(func() { dyn2 = rd2.GET("/{id}"+wantPath, namedHandler("dyn2")) }); panicked || dyn2 == nil {
+				return
+			}
+			got2, ps2, _ := rd2.Match("GET", "/7"+nq)
+			if (got2 == dyn2) != should || (should && ps2["id"] != "7") {
+				t.Fail("dynamic-route-suffix-not-literal", "route %q and request %q: reached=%v (params %v), expected reached=%v with id=7 (the literal part %q is compared character by character)", "/{id}"+wantPath, "/7"+nq, got2 == dyn2, ps2, should, wantPath)
 			}
 		}
 	})
